@@ -37,4 +37,6 @@ def main(tier):
     chk.run("R-POSCHECK", V.poscheck, r, cx.schema, cx.sites, only=("EnumValue.",), floor=9)
     chk.run("R-BOUNDARY", RG.boundary, r, floor=130)
     chk.run("R-INTRANGE", RG.intrange, r, parts=('backend',), floor=4)
+    chk.run("R-CHARSTREAM", B.charstream, cx.templates, floor=1)
+    chk.run("R-ENUMUNIQUE", B.enumunique, cx.repo, floor=2)
     return chk.finish()
